@@ -289,11 +289,11 @@ PROPS = {
     "C15": {
         "claimed": True,
         "technique": "every setter/getter pair of the lossless typed views called on paragraphs in three prior states; each call recorded as a trace event on the DOCUMENTED field name and judged by the TLA+ P-layer of the field editors (Deb822EditP via Deb822EditTrace) plus getter = value set",
-        "level_text": "tools/gen_accessors.py derives, for each of the 137 setter/getter pairs of control Source/Binary, apt Source/Package/Release, Buildinfo, copyright Header and DEP-3 PatchHeader, the field name the accessor is documented for (Debian naming convention + Policy exceptions, not the literals in the code) and generates a binding; the harness calls every setter (and clearing form) on a paragraph where the field is absent, present, and present among comments and other fields; each call is a `set`/`remove` event on the documented name that spec/Deb822EditTrace.tla judges with SetOK/RemoveOK (exactly the list effect, one field of that name, every other line and comment untouched, strict re-read equals what the object reports) together with getter == value set; source()/binaries() are checked on a three-paragraph control file.",
-        "level_note": "one valid value per accessor type; 5 setters with two arguments or without getter are skipped (listed in the evidence); copyright FilesParagraph/LicenseParagraph setters and Changes are not bound; getters on raw text are covered through the typed documents of C20 (lossy) only",
+        "level_text": "tools/gen_accessors.py derives, for each of the 137 setter/getter pairs of control Source/Binary, apt Source/Package/Release, Buildinfo, copyright Header and DEP-3 PatchHeader, the field name the accessor is documented for (Debian naming convention + Policy exceptions, not the literals in the code) and generates a binding; the harness calls every setter (and clearing form) on a paragraph where the field is absent, present, and present among comments and other fields; each call is a `set`/`remove` event on the documented name that spec/Deb822EditTrace.tla judges with SetOK/RemoveOK (exactly the list effect, one field of that name, every other line and comment untouched, strict re-read equals what the object reports) together with getter == value set; sequences of several setters on one live view are recorded as one history each and judged step by step by the same relation; getters on raw text (lists with varied blanks and folding, flags, checksum triples, first description line) are compared with the documented reading; source()/binaries() are checked on a three-paragraph control file.",
+        "level_note": "one valid value per accessor type; 5 setters with two arguments or without getter are skipped (listed in the evidence); copyright FilesParagraph/LicenseParagraph setters and Changes are not bound; ",
         "stages": [{"kind": "trace", "name": "accessor_calls", "module": "Deb822EditTrace.tla", "cfg": "Deb822EditTrace.cfg", "stage": "accessors",
-                    "prop_of": (lambda ev: ["C15"]), "n": {"quick": 1, "thorough": 1}, "timeout": {"quick": 600, "thorough": 600}}],
-        "rule": "one history (prior state, call) per accessor x prior state x {set, clear}; all distinct",
+                    "prop_of": (lambda ev: ["C15"]), "n": {"quick": 12, "thorough": 400}, "timeout": {"quick": 600, "thorough": 3000}}],
+        "rule": "one history (prior state, call) per accessor x prior state x {set, clear}, plus 12 (400 thorough) seeded random histories per view of 3-6 setter / clearing calls on ONE live view over a prior paragraph with some of its fields present; all distinct",
         "exhaustive": {"quick": True, "thorough": True},
         "assumptions": ["field names are compared case-sensitively with the conventional capitalisation"],
     },
